@@ -420,7 +420,14 @@ func scalarToHeader(a interface{}) (hdr *storage.Header, newAlloc bool) {
 	var raw []byte
 	switch at := a.(type) {
 	case Memory:
-		raw = storage.FromMemory(at.Uintptr(), at.MemSize())
+		// a scalar handed over as a tensor is an operand like any other: the kernels may write into the header they are
+		// given (the one-element special cases do), so they get a copy of its bytes, never its memory
+		src := storage.FromMemory(at.Uintptr(), at.MemSize())
+		raw = scalarPool(at.MemSize()).Get().([]byte)
+		copy(raw, src)
+		hdr = borrowHeader()
+		hdr.Raw = raw
+		return hdr, true
 	default:
 		raw = allocScalar(a)
 		newAlloc = true
